@@ -208,11 +208,19 @@ func runC09(c *Ctx) {
 	checkExitCodes(c, p, "R09.6")
 	checkPackagePath(c, p, "R09.7")
 	checkEmovesTerminates(c, p, "R09.8")
+	// every loop and recursion of the generator is of a terminating kind (table in c09term.go); the worklist
+	// arguments rest on the step rules: a round is repeated only when something new was added
+	checkGeneratorLoops(c, p, "R09.9")
+	checkFirstSteps(c, p, "R09.9s")
+	checkLR1Steps(c, p, "R09.9s")
+	checkItemSetOps(c, p, "R09.9s")
+	checkLexSubsetSteps(c, p, "R09.9s")
+	checkLexDependents(c, p, "R09.9s")
 	c.Assumptions = append(c.Assumptions, "the -p package path is a valid import path; the file header and the action expressions are valid Go (the property's premise)",
-		"NOT decided: termination of gocc for every input (Emoves, Closure, GetItemSets are worklist loops over unbounded grammars)",
+		"termination: every loop of the generator is a range loop, a counted loop with an invariant bound, a consuming scanner loop that leaves at end of input, or is listed with its argument (worklists: a round is repeated only after a duplicate-free collection over a finite universe has grown); the finiteness of those universes (items, item sets, FIRST sets) is argued in DESIGN, not checked; the front end's own Parse loop is assumed to terminate",
 		"go/format either fails or returns an equivalent program")
 	c.Trusted = append(c.Trusted, "text/template/parse (template syntax trees)", "go/ssa", "the lexical-context machine and class table in checker/splice.go")
-	c.Explanation = "C09, partial: 'status zero means complete, compilable output' is decided structurally. R09.1: every insertion point of every template is walked with the Go lexical context it lands in (code, string, raw string, comment) and the class of text its producers can put there (numbers, %q-quoted, identifiers, canonical rune renderings, import paths, user Go, arbitrary terminal spellings), the producers being found in the generator's SSA (stores to the data struct fields, constant printf formats expanded verb by verb); a context x class matrix says which insertions can break the token structure. R09.2: the instantiated templates type-check in all debug/zip variants. R09.3: on every path of main that returns normally the token and util generators run, the lexer generator is skipped exactly under -no_lexer, the parser generator exactly without a syntax part, and every generator calls all its writers unconditionally. R09.4: no error of template execution, formatting or file writing is dropped on a path to status zero. NOT decided: termination."
+	c.Explanation = "C09, partial: 'status zero means complete, compilable output' is decided structurally. R09.1: every insertion point of every template is walked with the Go lexical context it lands in (code, string, raw string, comment) and the class of text its producers can put there (numbers, %q-quoted, identifiers, canonical rune renderings, import paths, user Go, arbitrary terminal spellings), the producers being found in the generator's SSA (stores to the data struct fields, constant printf formats expanded verb by verb); a context x class matrix says which insertions can break the token structure. R09.2: the instantiated templates type-check in all debug/zip variants. R09.3: on every path of main that returns normally the token and util generators run, the lexer generator is skipped exactly under -no_lexer, the parser generator exactly without a syntax part, and every generator calls all its writers unconditionally. R09.4: no error of template execution, formatting or file writing is dropped on a path to status zero. R09.6: no recover(), no zero exit code. R09.7: the package path is derived from the output directory. R09.8/R09.9: termination of the generator, loop by loop (see assumptions)."
 }
 
 // ---- R09.3 output completeness ------------------------------------------------------------------
@@ -740,8 +748,10 @@ func checkPackagePath(c *Ctx, p *Prog, rule string) {
 				return VTuple{}, nil
 			},
 			"*.Parse": func(r *Run, cc *ssa.CallCommon, args []Val) (Val, error) { return VTuple{}, nil },
-			"*.Args":  func(r *Run, cc *ssa.CallCommon, args []Val) (Val, error) { return VSlice{Name: "ARGS", Len: intConst(1)}, nil },
-			"*.Arg":   func(r *Run, cc *ssa.CallCommon, args []Val) (Val, error) { return VOpq{"ARG0"}, nil },
+			"*.Args": func(r *Run, cc *ssa.CallCommon, args []Val) (Val, error) {
+				return VSlice{Name: "ARGS", Len: intConst(1)}, nil
+			},
+			"*.Arg": func(r *Run, cc *ssa.CallCommon, args []Val) (Val, error) { return VOpq{"ARG0"}, nil },
 			"*.getOutDir": func(r *Run, cc *ssa.CallCommon, args []Val) (Val, error) {
 				return VOpq{"OUTDIR"}, nil
 			},
